@@ -277,7 +277,7 @@ class World:
                     # the callee is slow (its thread does not get to its inbox within the latency bound): the wait expires
                     self.emit("ask_timeout", (caller, handler, timeout, [caller, owner.sim_name + "(slow)"]))
                     self.sleep(timeout)
-                    raise pykka.Timeout(f"{timeout} seconds")
+                    self._expire(my, timeout, None, None)
                 if idx is None and pctx is None:
                     # owner idle: drain its inbox
                     if owner.actor_inbox.empty() or not owner.actor_ref.is_alive():
@@ -288,7 +288,7 @@ class World:
                         # nobody will ever answer
                         if timeout is not None:
                             self.sleep(timeout)
-                            raise pykka.Timeout(f"{timeout} seconds")
+                            self._expire(my, timeout, None, None)
                         self.deadlock_handlers = self.handler_stack
                         raise SimDeadlock([caller, owner.sim_name + "(no answer)"])
                     if timeout is None:
@@ -324,6 +324,27 @@ class World:
                 self.stack[my].wait_timeout = None
                 self.stack[my].wait_future = None
 
+    LIVELOCK_TIMEOUTS = 60
+
+    def _expire(self, my, timeout, caller, handler):
+        """the wait of frame `my` expires; a handler that keeps asking again after every timeout never returns: its
+        controller processes no further request (reported like a deadlock)"""
+        if 0 <= my < len(self.stack):
+            fr = self.stack[my]
+            key = (fr.actor.sim_name, fr.handler)
+            cnt = self._to_counts = getattr(self, "_to_counts", {})
+            # the count is per handler execution: it is reset when the handler's delivery index changes
+            tag = (key, self.msg_index.get(fr.actor.sim_name))
+            if cnt.get("tag") != tag:
+                cnt.clear()
+                cnt["tag"] = tag
+                cnt["n"] = 0
+            cnt["n"] += 1
+            if cnt["n"] > self.LIVELOCK_TIMEOUTS:
+                self.deadlock_handlers = self.handler_stack
+                raise SimDeadlock([fr.actor.sim_name, f"(livelock: {fr.handler} still waiting after {cnt['n']} expired timeouts)"])
+        raise pykka.Timeout(f"{timeout} seconds")
+
     def _stuck(self, fut, timeout, my, lo, cycle):
         """No progress is possible for the wait of frame `my` (cycle through frames lo..my).  The wait with the
         smallest timeout on the cycle expires; none => deadlock."""
@@ -340,7 +361,7 @@ class World:
         self.emit("ask_timeout", (self.stack[j].actor.sim_name if j >= 0 else "<main>", self.stack[j].handler if j >= 0 else "<main>", t, cycle))
         if j == my:
             self.sleep(timeout)
-            raise pykka.Timeout(f"{timeout} seconds")
+            self._expire(my, timeout, None, None)
         ctx = _cur_ctx()
         if ctx is None:
             # frames above j do not live in a helper thread (cannot happen: asks with timeout always spawn one)
@@ -371,7 +392,7 @@ class World:
                 del self.stack[base:]
                 self.parked.append(ctx)
                 self.sleep(timeout)
-                raise pykka.Timeout(f"{timeout} seconds")
+                self._expire(my, timeout, None, None)
             # the timed-out frame is further down: propagate by parking ourselves too
             outer = _cur_ctx()
             if outer is None:
